@@ -27,6 +27,45 @@ pub fn take_ic_events() -> Vec<String> {
     IC_EVENTS.with(|e| std::mem::take(&mut *e.borrow_mut()))
 }
 
+thread_local! {
+    static PROBE_ON: Cell<bool> = const { Cell::new(false) };
+    static PROBE: RefCell<Vec<(u64, u32, u32, u32, u32)>> = const { RefCell::new(Vec::new()) };
+}
+
+/// Record, before every executed instruction, `(code block debug id, pc, temporaries on the value stack above
+/// the register file, environments above env_fp, pending binding references)`.
+pub fn set_probe(on: bool) {
+    PROBE_ON.with(|c| c.set(on));
+}
+
+pub fn take_probe() -> Vec<(u64, u32, u32, u32, u32)> {
+    PROBE.with(|p| std::mem::take(&mut *p.borrow_mut()))
+}
+
+pub(crate) fn probe_instruction(context: &crate::Context) {
+    if !PROBE_ON.with(Cell::get) {
+        return;
+    }
+    let frame = context.vm.frame();
+    let temps = (context.vm.stack.len() as u32)
+        .wrapping_sub(frame.rp)
+        .wrapping_sub(frame.code_block().register_count);
+    let envs = (frame.environments.len() as u32).wrapping_sub(frame.env_fp);
+    let record = (
+        frame.code_block().debug_id,
+        frame.pc,
+        temps,
+        envs,
+        frame.binding_stack.len() as u32,
+    );
+    PROBE.with(|p| {
+        let mut p = p.borrow_mut();
+        if p.len() < 2_000_000 {
+            p.push(record);
+        }
+    });
+}
+
 pub(crate) fn ic_event(f: impl FnOnce() -> String) {
     if IC_RECORD.with(Cell::get) {
         let line = f();
@@ -69,7 +108,7 @@ pub fn vm_snapshot(context: &crate::Context) -> String {
 pub fn dump_code_blocks(code: &boa_gc::Gc<crate::vm::CodeBlock>) -> String {
     fn go(code: &boa_gc::Gc<crate::vm::CodeBlock>, out: &mut String, n: &mut usize) {
         use std::fmt::Write;
-        let _ = writeln!(out, "==== block {} ic={} ====", *n, code.ic.len());
+        let _ = writeln!(out, "==== block {} ic={} id={} ====", *n, code.ic.len(), code.debug_id);
         *n += 1;
         let _ = writeln!(out, "{code}");
         for constant in &code.constants {
